@@ -277,6 +277,14 @@ def _check_pose(prop, k, specs, state):
         if not err <= 1e-12 * L:
             return _v(prop, "R.pose", k, "after update_collider_poses the pose of collider %s differs from the "
                                          "transform manager's current transform by %.3g" % (f, err))
+        if "sup" in s and f in specs:
+            a, b = np.array(s["sup"]), np.array(s["sup_tw"])
+            Ls = geom.scale_L([(specs[f], s["tm"])])
+            bad = ~((np.abs(a - b) <= 1e-9 * Ls) | (np.isnan(a) & np.isnan(b)))
+            if np.any(bad):
+                return _v(prop, "R.pose.geometry", k, "after update_collider_poses collider %s (%s) reports the manager's "
+                          "transform as its pose but its support values along the axes differ from those of a fresh "
+                          "collider at that transform by %.3g" % (f, specs[f]["kind"], float(np.nanmax(np.abs(a - b)))))
     return None
 
 
